@@ -1,16 +1,26 @@
 //! C04 (second module) - GSUB subtables parsed from bytes and their per-glyph lookups, with the
 //! layout caches stubbed out of the formula (see `util::stub_read_cache`).
 //!
-//! @funcs SingleSubst::{read_dep, apply_glyph}, MultipleSubst::{read_dep, apply_glyph}, SequenceTable::read, AlternateSubst::{read_dep, apply_glyph}, AlternateSet::read, LigatureSubst::{read_dep, apply_glyph}, LigatureSet::read, Ligature::read, Coverage::read, layout::read_objects, LayoutTable::<GSUB>::read, layout::new_layout_cache
+//! @funcs SingleSubst::{read_dep, apply_glyph}, MultipleSubst::{read_dep, apply_glyph}, SequenceTable::read, AlternateSubst::{read_dep, apply_glyph}, AlternateSet::read, LigatureSubst::{read_dep, apply_glyph}, LigatureSet::read, Ligature::read, ContextLookup::<GSUB>::read_dep (format 1), SubRuleSet::read, SubRule::read, layout::context_lookup_info, ReverseChainSingleSubst::{read_dep, apply_glyph}, MatchContext::matches, Coverage::read, layout::read_objects, LayoutTable::<GSUB>::read, layout::new_layout_cache
 //! @stub ReadScope::read_cache -> the same read without memoisation (util::stub_read_cache); std RandomState::new -> constant state
-//! @out the application loops in gsub.rs (which glyphs are visited, insertion and removal of glyphs, ligature component bookkeeping), lookup ordering, nested lookups, reverse chaining; subtables larger than stated
+//! @out chaining context format 3 (CBMC cannot bound the coverage-sequence matching loops: unwinding assertion, no verdict), context formats 2 and 3, the application loops in gsub.rs (which glyphs are visited, insertion and removal of glyphs, ligature component bookkeeping), lookup ordering, nested lookups, reverse chaining; subtables larger than stated
 
 use crate::util::*;
 use allsorts::binary::read::ReadScope;
+use allsorts::context::{Glyph, LookupFlag, MatchType};
 use allsorts::layout::{
-    new_layout_cache, AlternateSubst, LayoutCache, LayoutTable, LigatureSubst, MultipleSubst,
-    SingleSubst, GSUB,
+    context_lookup_info, new_layout_cache, AlternateSubst, ContextLookup, LayoutCache, LayoutTable,
+    LigatureSubst, MultipleSubst, ReverseChainSingleSubst, SingleSubst, GSUB,
 };
+
+#[derive(Copy, Clone)]
+struct G(u16);
+
+impl Glyph for G {
+    fn get_glyph_index(&self) -> u16 {
+        self.0
+    }
+}
 
 fn gsub_cache() -> LayoutCache<GSUB> {
     static HEADER: [u8; 10] = [0, 1, 0, 0, 0, 0, 0, 0, 0, 0];
@@ -147,5 +157,93 @@ fn c04_ligature_subst() {
         assert!(got.is_none());
     }
     std::mem::forget(ls);
+    std::mem::forget(cache);
+}
+
+/// Contextual substitution format 1: the rules of the first glyph's rule set are tried in font
+/// order; the first rule whose input sequence matches supplies the (sequence index, lookup index)
+/// records to apply.
+// @bound ContextLookup format 1 with 1 covered glyph and a rule set of 2 rules (input of 2 glyphs, then input of 1 glyph), one lookup record each, every glyph id and record value; run of 2 glyphs with symbolic ids; no GDEF, lookup flag 0
+#[kani::proof]
+#[kani::unwind(8)]
+#[kani::stub(allsorts::binary::read::ReadScope::read_cache, crate::util::stub_read_cache)]
+#[kani::stub(std::collections::hash_map::RandomState::new, crate::util::stub_random_state)]
+fn c04_context_format1_rule_order() {
+    let mut buf: [u8; 38] = kani::any();
+    put16(&mut buf, 0, 1);
+    put16(&mut buf, 2, 32); // coverage
+    put16(&mut buf, 4, 1); // subRuleSetCount
+    put16(&mut buf, 6, 8);
+    put16(&mut buf, 8, 2); // subRuleCount, offsets from the rule set
+    put16(&mut buf, 10, 6);
+    put16(&mut buf, 12, 16);
+    put16(&mut buf, 14, 2); // rule 0: glyphCount 2, substCount 1, input[0] at 18, record at 20
+    put16(&mut buf, 16, 1);
+    put16(&mut buf, 24, 1); // rule 1: glyphCount 1, substCount 1, record at 28
+    put16(&mut buf, 26, 1);
+    put16(&mut buf, 32, 1);
+    put16(&mut buf, 34, 1);
+    let covered = be16(&buf, 36);
+    let cache = gsub_cache();
+    let ctx = ReadScope::new(&buf).read_dep::<ContextLookup<GSUB>>(&cache).unwrap();
+    let ids: [u16; 2] = kani::any();
+    let glyphs = [G(ids[0]), G(ids[1])];
+    let mt = MatchType::from_lookup_flag(LookupFlag(0), None);
+    let got = context_lookup_info::<GSUB, GSUB>(&ctx, ids[0], |mc| mc.matches(None, mt, &glyphs, 0)).unwrap();
+    if ids[0] != covered {
+        assert!(got.is_none());
+    } else {
+        let helper = got.unwrap();
+        assert!(helper.lookup_array.len() == 1);
+        let rec = if ids[1] == be16(&buf, 18) { 20 } else { 28 };
+        assert!(helper.lookup_array[0] == (be16(&buf, rec), be16(&buf, rec + 2)), "records of the first matching rule");
+        kani::cover!(rec == 20, "longer rule matched first");
+        kani::cover!(rec == 28, "fell through to the second rule");
+        std::mem::forget(helper);
+    }
+    std::mem::forget(ctx);
+    std::mem::forget(cache);
+}
+
+/// Reverse chaining single substitution: a covered glyph whose neighbours are in the backtrack
+/// and lookahead coverages is replaced by the substitute at its coverage index.
+// @bound ReverseChainSingleSubst with a coverage of 2 glyphs, 2 substitutes, 1 backtrack and 1 lookahead coverage of 1 glyph each, every value; run of 3 glyphs with symbolic ids, position 1; no GDEF, lookup flag 0
+#[kani::proof]
+#[kani::unwind(8)]
+#[kani::stub(allsorts::binary::read::ReadScope::read_cache, crate::util::stub_read_cache)]
+#[kani::stub(std::collections::hash_map::RandomState::new, crate::util::stub_random_state)]
+fn c04_reverse_chain_single_subst() {
+    let mut buf: [u8; 38] = kani::any();
+    put16(&mut buf, 0, 1);
+    put16(&mut buf, 2, 18); // coverage
+    put16(&mut buf, 4, 1);
+    put16(&mut buf, 6, 26); // backtrack coverage
+    put16(&mut buf, 8, 1);
+    put16(&mut buf, 10, 32); // lookahead coverage
+    put16(&mut buf, 12, 2); // substitutes at 14, 16
+    put16(&mut buf, 18, 1);
+    put16(&mut buf, 20, 2);
+    let (g0, g1) = (be16(&buf, 22), be16(&buf, 24));
+    kani::assume(g0 < g1);
+    put16(&mut buf, 26, 1);
+    put16(&mut buf, 28, 1);
+    put16(&mut buf, 32, 1);
+    put16(&mut buf, 34, 1);
+    let (back, ahead) = (be16(&buf, 30), be16(&buf, 36));
+    let cache = gsub_cache();
+    let rc = ReadScope::new(&buf).read_dep::<ReverseChainSingleSubst>(&cache).unwrap();
+    let ids: [u16; 3] = kani::any();
+    let glyphs = [G(ids[0]), G(ids[1]), G(ids[2])];
+    let mt = MatchType::from_lookup_flag(LookupFlag(0), None);
+    let got = rc.apply_glyph(ids[1], |mc| mc.matches(None, mt, &glyphs, 1)).unwrap();
+    let idx = if ids[1] == g0 { Some(0usize) } else if ids[1] == g1 { Some(1) } else { None };
+    match idx {
+        Some(i) if ids[0] == back && ids[2] == ahead => {
+            assert!(got == Some(be16(&buf, 14 + 2 * i)), "substitute at the coverage index");
+            kani::cover!(i == 1);
+        }
+        _ => assert!(got.is_none()),
+    }
+    std::mem::forget(rc);
     std::mem::forget(cache);
 }
